@@ -449,7 +449,32 @@ def gen_c15(rnd, tier):
             return {"op": "get", "c": name, "key": rnd.choice(KEYS), "tid": st["tids"][0]}
         return it
     n = 24 if tier == "quick" else 400
-    return with_extmon(rnd, [rounds_scenario(rnd, rnd.randint(2, 3), rnd.randint(3, 6), 2, mk, auth="s3cr3t", first=first) for _ in range(n)], share=0.0)
+    scs = [rounds_scenario(rnd, rnd.randint(2, 3), rnd.randint(3, 6), 2, mk, auth="s3cr3t", first=first) for _ in range(n)]
+    # one privilege not granted (an empty list, or no entry at all in the token), the other two granted for
+    # everything: every kind of request once, on data an unrestricted session wrote before
+    for missing in ("read", "write", "delete"):
+        for omit in (False, True):
+            cl = {"read": [["#"]], "write": [["#"]], "delete": [["#"]]}
+            cl[missing] = []
+            k = rnd.choice([["a"], ["a", "b"], ["b"]])
+            full = {"read": [["#"]], "write": [["#"]], "delete": [["#"]]}
+            s1 = [{"op": "auth", "c": "c1", "kind": "ok", "claims": full, "wait": True},
+                  {"op": "set", "c": "c1", "key": k, "val": "v1", "tid": 1, "wait": True}, {"op": "barrier", "n": 0}, {"op": "barrier", "n": 1},
+                  {"op": "pget", "c": "c1", "pat": ["#"], "tid": 2, "wait": True}]
+            t = [0]
+
+            def it(op, **kw):
+                t[0] += 1
+                return dict({"op": op, "c": "c2", "tid": t[0]}, **kw)
+            reqs = [it("get", key=k), it("pget", pat=["#"]), it("ls", parent=[]), it("set", key=k, val="v2"), it("cset", key=["n"], val="v2", ver=0),
+                    it("publish", key=k, val="v3"), it("delete", key=k), it("pdelete", pat=["a", "#"]), it("lock", key=k), it("release", key=k),
+                    it("spubinit", key=k), it("cget", key=k)]
+            rnd.shuffle(reqs)
+            reqs[-1]["wait"] = True
+            s2 = [dict({"op": "auth", "c": "c2", "kind": "ok", "claims": cl, "wait": True}, **({"omit_empty": True} if omit else {})),
+                  {"op": "barrier", "n": 0}] + reqs + [{"op": "barrier", "n": 1}]
+            scs.append({"auth": {"secret": "s3cr3t"}, "sessions": {"c1": s1, "c2": s2}})
+    return with_extmon(rnd, scs, share=0.0)
 
 
 def gen_c02(rnd, tier):
